@@ -33,6 +33,18 @@ func refuse(format string, a ...any) {
 	os.Exit(1)
 }
 
+// softRefuse: a form of the decoder sites / As…() functions that is not understood. The key
+// tables are still emitted (so that the harness can search for a failing input), the fact in
+// question is emitted in its pessimistic form (site not strict, no member recognised) so that
+// the Lean obligation fails, and the extractor exits with status 3.
+var softProblems []string
+
+func softRefuse(format string, a ...any) {
+	msg := fmt.Sprintf(format, a...)
+	fmt.Fprintf(os.Stderr, "xconfig: REFUSE (facts emitted pessimistically): %s\n", msg)
+	softProblems = append(softProblems, msg)
+}
+
 // fileSpec ties one configuration file kind to its Go root, its published schema, the
 // function that constructs its decoder and the union ("rule entry") types it contains.
 type fileSpec struct {
@@ -140,6 +152,7 @@ type facts struct {
 	Keys     []string    `json:"keys"`
 	Files    []fileFacts `json:"files"`
 	Sites    []site      `json:"sites"`
+	Problems []string    `json:"problems"`
 	Measured int         `json:"measured_probes"`
 	Structs  int         `json:"structs"`
 }
@@ -186,7 +199,8 @@ func main() {
 			for _, f := range fieldsRecognised {
 				k, ok := fieldKey[f]
 				if !ok {
-					refuse("%s tests field %s which yaml.v3 does not decode", u.Func, f)
+					softRefuse("%s tests field %s which yaml.v3 does not decode", u.Func, f)
+					continue
 				}
 				uf.Recognised = append(uf.Recognised, k)
 			}
@@ -230,11 +244,15 @@ func main() {
 		out.Keys = append(out.Keys, k)
 	}
 	sort.Strings(out.Keys)
+	out.Problems = softProblems
 	if p := args["json"]; p != "" {
 		writeJSON(p, out)
 	}
 	if p := args["lean"]; p != "" {
 		writeLean(p, out)
+	}
+	if len(softProblems) > 0 {
+		os.Exit(3)
 	}
 	fmt.Printf("xconfig ok: %d structs, %d measured probes, %d keys, %d decoder sites\n", out.Structs, out.Measured, len(out.Keys), len(out.Sites))
 }
